@@ -28,5 +28,7 @@ def Ops.toX (O : Ops α) : Gen.FOpsX α where
   isZero := O.isZero
   isOne := O.isOne
   pow := O.pow
+  root := fun _ => O.zero
+  rootOk := fun _ => false
 
 end Model.Poly
